@@ -187,20 +187,28 @@ _rm_cache = {}
 
 
 def ref_model_of(model):
+    """reference model for a penman Model; cached per live object through a weak reference
+    (a strong reference would keep every short-lived model alive and an id()-keyed cache
+    without validation would be exactly the bug the workloads try to provoke)"""
+    import weakref
     from pmon.ref.model import RefModel
     if model is None:
-        key = None
-    else:
-        key = id(model)
-    rm = _rm_cache.get(key)
-    if rm is None or rm[0] is not model:
-        if model is None:
-            r = RefModel(name='default')
-        else:
-            r = RefModel.from_penman(model)
-        _rm_cache[key] = (model, r)
+        r = _rm_cache.get(None)
+        if r is None:
+            r = _rm_cache[None] = RefModel(name='default')
         return r
-    return rm[1]
+    ent = _rm_cache.get(id(model))
+    if ent is not None and ent[0]() is model:
+        return ent[1]
+    r = RefModel.from_penman(model)
+    try:
+        _rm_cache[id(model)] = (weakref.ref(model), r)
+    except TypeError:
+        pass
+    if len(_rm_cache) > 512:
+        for k in [k for k, v in _rm_cache.items() if k is not None and v[0]() is None]:
+            del _rm_cache[k]
+    return r
 
 
 def _all_str_atoms(node):
